@@ -821,11 +821,14 @@ func (m *Memberlist) sendMsg(a Address, msg []byte) error {
 	msgs = append(msgs, msg)
 	msgs = append(msgs, extra...)
 
-	// Create a compound message
-	compound := makeCompoundMessage(msgs)
-
-	// Send the message
-	return m.rawSendMsgPacket(a, nil, compound.Bytes())
+	// Create one or more compound messages (a compound holds at most 255
+	// parts, its count is a single byte) and send them
+	for _, compound := range makeCompoundMessages(msgs) {
+		if err := m.rawSendMsgPacket(a, nil, compound.Bytes()); err != nil {
+			return err
+		}
+	}
+	return nil
 }
 
 // rawSendMsgPacket is used to send message via packet to another host without
